@@ -656,8 +656,8 @@ Definition acl_op_ok (v : variant) (o : acl_op) : bool :=
 (*     error;                                                                             *)
 (*   - "invalid request size" unless three values follow the context;                     *)
 (*   - the matcher reads the tokens RTOK_sub ... / PTOK_sub ... of the sections it was     *)
-(*     written for: under any other RT / PT the parameter lookup fails ("No parameter      *)
-(*     found"), an error;                                                                 *)
+(*     written for: under any other RT / PT the parameter lookup fails (No parameter       *)
+(*     found), an error;                                                                  *)
 (*   - empty policy PT: the matcher is evaluated once against empty policy fields;         *)
 (*   - otherwise the rules of PT are scanned in order, "invalid policy size" on a rule of  *)
 (*     the wrong arity; e stops at the first match (allow), e2 (no eft column, so no rule  *)
@@ -770,3 +770,26 @@ Definition cx_init (rules1 rules2 : list (list string)) : state cx_state :=
 Definition cx_op := op cx_mut.
 Definition cx_run_step (v : variant) (s : state cx_state) (o : cx_op) : state cx_state * out :=
   step cx_enforce cx_step v s o.
+
+(* guard of the instance of `transparent` for this fixture: the same as acl_op_ok (listed
+   invalidating mutators, which act on "p"; nothing that changes "p2") *)
+Definition cx_op_ok (v : variant) (o : cx_op) : bool :=
+  match o with
+  | Enforce _ _ | InvalidateCache | LoadPolicy | ClearPolicy | EnableCache _ | SetExpireTime _ => true
+  | RemovePolicy _ => true
+  | RemovePolicies _ => true
+  | AddPolicy ps =>
+      match v with
+      | Synced => match rule_of_params ps with
+                  | Some rule => Nat.eqb (List.length rule) 3
+                  | None => true
+                  end
+      | Plain => false
+      end
+  | AddPolicies rules =>
+      match v with
+      | Synced => forallb (fun r => Nat.eqb (List.length r) 3) rules
+      | Plain => false
+      end
+  | Passthrough _ => false
+  end.
